@@ -147,6 +147,10 @@ impl LdpcDecoder for ScriptedDecoder {
                     while w[q] != hard[q] { q = (q + 1) % self.shared.k; }
                     w[q] ^= 1;
                 }
+                if *flips == 0 && !*ok && w.len() > self.shared.k {
+                    let q = self.shared.k + (seq as usize + self.id) % (w.len() - self.shared.k);   // a parity bit is wrong
+                    w[q] ^= 1;
+                }
                 (w, *ok, *iters, "bad", *flips)
             }
             Act::Invert => (hard.iter().map(|b| b ^ 1).collect(), false, 1, "invert", self.shared.k),
